@@ -2,9 +2,9 @@ package main
 
 func init() {
 	reg(propDef{ID: "C06", Test: "TestC06", Level: "exploration", Shards: [2]int{8, 16}, CapMin: [2]int{10, 60},
-		Rule: "cases = PRNG(seed) histories on real pub|xpub, sub (socket + 0-2 opened contexts + one witness context per socket) and xsub sockets over inproc|tcp, 1-2 publishers x 1-3 subscribers, either side listening. Topics and body heads over {00,'a','b',ff}, length 0-4 (empty, equal, prefix-of-each-other, near-miss, non-UTF-8; heads biased to extensions / proper prefixes / near misses of topics in use; bodies carry a unique tag except some of publisher 0). " +
+		Rule: "cases = PRNG(seed) histories on real pub|xpub, sub (socket + 0-2 opened contexts + one witness context per socket) and xsub sockets over inproc|ipc|tcp (tcp share limited to spare the ephemeral ports), 1-2 publishers x 1-3 subscribers, either side listening. Topics and body heads over {00,'a','b',ff}, length 0-4 (empty, equal, prefix-of-each-other, near-miss, non-UTF-8; heads biased to extensions / proper prefixes / near misses of topics in use; bodies carry a unique tag except some of publisher 0). " +
 			"seq: 4-30 steps of [0-3 Subscribe/Unsubscribe (new, duplicate, absent, prefix/extension neighbours, []byte or string argument, argument overwritten afterwards), occasional context open/close, publish <=20 per publisher + sentinel FEFE, witness barrier, optionally Unsubscribe on the loaded queue, drain a random subset of contexts]; each drain compares the delivered sequence per publisher with a reference prefix matcher + queue model (filter on Unsubscribe), exactly; a final barrier proves nothing else was queued. " +
-			"conc: receiver + mutator goroutine per context and a goroutine per publisher, optional prefilled queues; interval semantics (possibly/definitely subscribed intervals from call/return times), order, duplicates, must-deliver up to the final sentinel. " +
+			"conc: receiver + mutator goroutine per context and a goroutine per publisher, optional prefilled queues; interval semantics (possibly/definitely subscribed intervals from call/return times), order, duplicates, must-deliver up to the final sentinel; plus a few conc-race cases (inproc, queues of 1024, up to 1000 rounds of Recv against spinning Subscribe/Unsubscribe on loaded queues, ending at the first violation). " +
 			"ovf-sub: ReadQLen 1-8 (never 0) on one context, burst longer than the queue: order-preserving duplicate-free subsequence, exact when it fits, neighbour context exact. " +
 			"ovf-pub: WriteQLen 1-8 on PUB: lossless burst of WriteQLen messages exact; blast of 20-50: subsequence per context, contexts of one socket agree. " +
 			"non-trivial = a drain delivered a proper non-empty part of what reached the socket (seq) / a delivery matched only a volatile topic (conc) / a message was lost to overflow (ovf); distinct = hash of (transport, topology, per-operation outcome and per-drain delivered/offered counts)",
